@@ -1060,6 +1060,136 @@ structure FreshR (C : Crypto) (bs : Array Bytes) (c : Core) (d : Disk) : Prop wh
 def honestUpgrade (C : Crypto) (bs : Array Bytes) (fork : Nat) (sig : Bytes) : Proof :=
   ⟨fork, none, none, none, some ⟨0, bs.size, RefTree.roots C bs, [], sig⟩⟩
 
+/-- the core right after an upgrade has been logged and committed, before the periodic flush -/
+def growCore (c : Core) (cs : Changeset) : Core :=
+  { c with oplog := (Oplog.appendEntry c.oplog (Core.entryOf cs none c.header).1).1, header := (Core.entryOf cs none c.header).2, bitfield := c.bitfield, tree := { c.tree with roots := cs.roots, length := cs.length, byteLength := cs.byteLength, fork := cs.fork, signature := cs.signature, unflushed := insertAll c.tree.unflushed cs.nodes } }
+
+theorem first_shape (C : Crypto) (hC : HashWF C) (bs : Array Bytes) (c : Core) (d : Disk) (h : FreshR C bs c d)
+    (h0 : 0 < bs.size) (sig : Bytes) (hsl : sig.length = 64)
+    (hver : C.verify c.publicKey (RefTree.signableOf C bs c.tree.fork) sig = true) :
+    ∃ cs : Changeset, cs.roots = RefTree.roots C bs ∧ cs.length = bs.size ∧ cs.fork = c.tree.fork ∧ cs.signature = some sig
+      ∧ cs.nodes = RefTree.roots C bs ∧ cs.upgraded = true ∧ cs.ancestors = c.tree.length ∧ cs.byteLength = psum bs bs.size
+      ∧ cs.hash = some (rootsHash C cs.roots)
+      ∧ c.verifyAndApply C d (honestUpgrade C bs c.tree.fork sig)
+        = { core := (growCore c cs).maybeFlush.1, result := .ok true,
+            journal := (Oplog.appendEntry c.oplog (Core.entryOf cs none c.header).1).2 ++ (growCore c cs).maybeFlush.2,
+            events := Core.appliedEvents (honestUpgrade C bs c.tree.fork sig) none } := by
+  obtain ⟨cs, h1, h2, h3, h4, h5, h6, h7, h8, h9, h10, h11⟩ := UpgradeComplete.fresh_upgrade_accepted C bs h.small.1 h0 c.tree.fork c.publicKey sig
+    c.tree.changeset (by simp [Tree.changeset, h.roots]) (by simp [Tree.changeset, h.empty.length]) hsl hver
+  have hvv : verifyProof C c.tree d.tree (honestUpgrade C bs c.tree.fork sig) c.publicKey = .ok cs := by
+    simp [honestUpgrade, Tree.verifyProof, verifyTree, untrustedOf, noSeekOf, h1]
+  have hrn : cs.rnodes = (RefTree.roots C bs).reverse := by simpa [Tree.changeset] using h6
+  have hnodes : cs.nodes = RefTree.roots C bs := by simp [Changeset.nodes, hrn]
+  have ho1 : cs.origLength = c.tree.length := by simpa [Tree.changeset] using h8
+  have ho2 : cs.origFork = c.tree.fork := by simpa [Tree.changeset] using h9
+  have ha : cs.ancestors = c.tree.length := by simpa [Tree.changeset] using h10
+  have hcmt : c.tree.commitable cs = true := by simp [Tree.commitable, h7, ho1, ho2]
+  have hnl : ¬ (cs.ancestors < cs.origLength) := by omega
+  generalize htr : ({ c.tree with roots := cs.roots, length := cs.length, byteLength := cs.byteLength, fork := cs.fork, signature := cs.signature, unflushed := insertAll c.tree.unflushed (RefTree.roots C bs) } : Tree) = tr
+  have hcommit : c.tree.commit cs = .ok tr := by
+    rw [← htr]
+    simp only [Tree.commit, hcmt, h7, Bool.not_true, Bool.false_eq_true, ite_false, Bool.true_and, decide_eq_true_eq, hnl, ite_true, insertAll, hnodes]
+  have hds : Core.dataStep c d (honestUpgrade C bs c.tree.fork sig) cs = .ok ([], none) := by
+    simp [Core.dataStep, honestUpgrade]
+  have hp : (honestUpgrade C bs c.tree.fork sig).fork = c.tree.fork := rfl
+  -- the state before the periodic flush
+  generalize hc1 : ({ c with oplog := (Oplog.appendEntry c.oplog (Core.entryOf cs none c.header).1).1, header := (Core.entryOf cs none c.header).2, bitfield := c.bitfield, tree := tr } : Core) = c1
+  have hshape : c.verifyAndApply C d (honestUpgrade C bs c.tree.fork sig)
+      = { core := c1.maybeFlush.1, result := .ok true,
+          journal := (Oplog.appendEntry c.oplog (Core.entryOf cs none c.header).1).2 ++ c1.maybeFlush.2,
+          events := Core.appliedEvents (honestUpgrade C bs c.tree.fork sig) none } := by
+    unfold Core.verifyAndApply
+    simp only [hp, ne_eq, not_true_eq_false, ite_false, hvv, hcmt, Bool.not_true, Bool.false_eq_true, hds]
+    unfold Core.applyVerified
+    simp only [hcommit, Core.finishApply, List.nil_append, ← hc1]
+  have hsum : UpgradeBytes.SumOK cs := by
+    apply UpgradeBytes.verifyUpgrade_sum C _ _ _ _ _ _ _ h1
+    simp [UpgradeBytes.SumOK, Tree.changeset, h.roots, h.bytes0]
+  have hbytes : cs.byteLength = psum bs bs.size := by
+    rw [hsum, h2, UpgradeBytes.roots_eq, Reopen.refRoots_sum, LiveRefine.psum_total]
+  refine ⟨cs, h2, h3, h4, h5, hnodes, h7, ha, hbytes, h11, ?_⟩
+  rw [hshape, ← hc1, ← htr, ← hnodes]
+  rfl
+
+theorem firstCore_repr (C : Crypto) (hC : HashWF C) (bs : Array Bytes) (c : Core) (d : Disk) (h : FreshR C bs c d)
+    (h0 : 0 < bs.size) (sig : Bytes) (hsl : sig.length = 64)
+    (hver : C.verify c.publicKey (RefTree.signableOf C bs c.tree.fork) sig = true) :
+    ∃ cs : Changeset, cs.roots = RefTree.roots C bs ∧ cs.length = bs.size ∧ cs.fork = c.tree.fork ∧ cs.signature = some sig
+      ∧ cs.nodes = RefTree.roots C bs ∧ cs.upgraded = true ∧ cs.ancestors = c.tree.length ∧ cs.byteLength = psum bs bs.size
+      ∧ cs.hash = some (rootsHash C cs.roots)
+      ∧ c.verifyAndApply C d (honestUpgrade C bs c.tree.fork sig)
+        = { core := (growCore c cs).maybeFlush.1, result := .ok true,
+            journal := (Oplog.appendEntry c.oplog (Core.entryOf cs none c.header).1).2 ++ (growCore c cs).maybeFlush.2,
+            events := Core.appliedEvents (honestUpgrade C bs c.tree.fork sig) none }
+      ∧ RepR C bs (growCore c cs) (d.applyAll (Oplog.appendEntry c.oplog (Core.entryOf cs none c.header).1).2) (fun _ => false) := by
+  obtain ⟨cs, h1, h2, h3, h4, h5, h6, h7, h8, h9, h10, h11⟩ := UpgradeComplete.fresh_upgrade_accepted C bs h.small.1 h0 c.tree.fork c.publicKey sig
+    c.tree.changeset (by simp [Tree.changeset, h.roots]) (by simp [Tree.changeset, h.empty.length]) hsl hver
+  have hvv : verifyProof C c.tree d.tree (honestUpgrade C bs c.tree.fork sig) c.publicKey = .ok cs := by
+    simp [honestUpgrade, Tree.verifyProof, verifyTree, untrustedOf, noSeekOf, h1]
+  have hrn : cs.rnodes = (RefTree.roots C bs).reverse := by simpa [Tree.changeset] using h6
+  have hnodes : cs.nodes = RefTree.roots C bs := by simp [Changeset.nodes, hrn]
+  have ho1 : cs.origLength = c.tree.length := by simpa [Tree.changeset] using h8
+  have ho2 : cs.origFork = c.tree.fork := by simpa [Tree.changeset] using h9
+  have ha : cs.ancestors = c.tree.length := by simpa [Tree.changeset] using h10
+  have hcmt : c.tree.commitable cs = true := by simp [Tree.commitable, h7, ho1, ho2]
+  have hnl : ¬ (cs.ancestors < cs.origLength) := by omega
+  generalize htr : ({ c.tree with roots := cs.roots, length := cs.length, byteLength := cs.byteLength, fork := cs.fork, signature := cs.signature, unflushed := insertAll c.tree.unflushed (RefTree.roots C bs) } : Tree) = tr
+  have hcommit : c.tree.commit cs = .ok tr := by
+    rw [← htr]
+    simp only [Tree.commit, hcmt, h7, Bool.not_true, Bool.false_eq_true, ite_false, Bool.true_and, decide_eq_true_eq, hnl, ite_true, insertAll, hnodes]
+  have hds : Core.dataStep c d (honestUpgrade C bs c.tree.fork sig) cs = .ok ([], none) := by
+    simp [Core.dataStep, honestUpgrade]
+  have hp : (honestUpgrade C bs c.tree.fork sig).fork = c.tree.fork := rfl
+  -- the state before the periodic flush
+  generalize hc1 : ({ c with oplog := (Oplog.appendEntry c.oplog (Core.entryOf cs none c.header).1).1, header := (Core.entryOf cs none c.header).2, bitfield := c.bitfield, tree := tr } : Core) = c1
+  have hshape : c.verifyAndApply C d (honestUpgrade C bs c.tree.fork sig)
+      = { core := c1.maybeFlush.1, result := .ok true,
+          journal := (Oplog.appendEntry c.oplog (Core.entryOf cs none c.header).1).2 ++ c1.maybeFlush.2,
+          events := Core.appliedEvents (honestUpgrade C bs c.tree.fork sig) none } := by
+    unfold Core.verifyAndApply
+    simp only [hp, ne_eq, not_true_eq_false, ite_false, hvv, hcmt, Bool.not_true, Bool.false_eq_true, hds]
+    unfold Core.applyVerified
+    simp only [hcommit, Core.finishApply, List.nil_append, ← hc1]
+  have hj1 : ∀ op ∈ (Oplog.appendEntry c.oplog (Core.entryOf cs none c.header).1).2, op.store = .oplog := Journal.appendEntry_store _ _
+  have htree : (d.applyAll (Oplog.appendEntry c.oplog (Core.entryOf cs none c.header).1).2).tree = d.tree :=
+    LiveRefine.tree_of_applyAll _ _ (fun op hop => by rw [hj1 op hop]; decide)
+  have hc1t : c1.tree = tr := by rw [← hc1]
+  have hc1b : c1.bitfield = c.bitfield := by rw [← hc1]
+  have hc1h : c1.header.contiguous = c.header.contiguous := by
+    rw [← hc1]; simp only [Core.entryOf, h7, ite_true]
+  have hrep1 : RepR C bs c1 (d.applyAll (Oplog.appendEntry c.oplog (Core.entryOf cs none c.header).1).2) (fun _ => false) := by
+    have hcl := upgrade_commit_closed C hC bs c.tree d.tree h.empty tr (by rw [← htr]) (by rw [← htr]; exact h3)
+    have hsum : UpgradeBytes.SumOK cs := by
+      apply UpgradeBytes.verifyUpgrade_sum C _ _ _ _ _ _ _ h1
+      simp [UpgradeBytes.SumOK, Tree.changeset, h.roots, h.bytes0]
+    have hbytes : cs.byteLength = psum bs bs.size := by
+      rw [hsum, h2, UpgradeBytes.roots_eq, Reopen.refRoots_sum, LiveRefine.psum_total]
+    refine ⟨(by rw [hc1t, htree]; exact hcl), (by rw [hc1t, ← htr]; exact h2), (by rw [hc1t, ← htr]; exact hbytes), ?_, (by rw [htree]; exact h.aligned),
+      (by intro i; rw [hc1b]; exact h.bits i), (fun i hi => by cases hi), (fun i hi => by cases hi), (fun i hi => by cases hi),
+      (by rw [hc1b, hc1h]; exact h.contig), h.small⟩
+    rw [hc1t, ← htr]
+    apply mapWF_insertAll _ _ h.mapwf
+    intro n hn
+    have hroots : RefTree.roots C bs = (rootsStack bs.size).reverse.map (fun p => nodeAt C bs p.1 p.2) := by simp [RefTree.roots]
+    rw [hroots] at hn
+    obtain ⟨p, hp', rfl⟩ := List.mem_map.mp hn
+    have hb := rootsStack_bound bs.size p (List.mem_reverse.mp hp')
+    refine ⟨nodeAt_hash_len C hC bs p.1 p.2, ?_⟩
+    have a1 := nodeAt_length_le C bs p.1 p.2
+    have a2 := psum_mono bs hb
+    have := h.small.2
+    omega
+  have hsum' : UpgradeBytes.SumOK cs := by
+    apply UpgradeBytes.verifyUpgrade_sum C _ _ _ _ _ _ _ h1
+    simp [UpgradeBytes.SumOK, Tree.changeset, h.roots, h.bytes0]
+  have hbytes' : cs.byteLength = psum bs bs.size := by
+    rw [hsum', h2, UpgradeBytes.roots_eq, Reopen.refRoots_sum, LiveRefine.psum_total]
+  refine ⟨cs, h2, h3, h4, h5, hnodes, h7, ha, hbytes', h11, ?_, ?_⟩
+  · rw [hshape, ← hc1, ← htr, ← hnodes]
+    rfl
+  · rw [← hc1, ← htr, ← hnodes] at hrep1
+    exact hrep1
+
 /-- **first contact at core level**: the replica applies the writer's upgrade answer and then represents the
     writer's log with no block held -/
 theorem apply_first_upgrade (C : Crypto) (hC : HashWF C) (bs : Array Bytes) (c : Core) (d : Disk) (h : FreshR C bs c d)
@@ -1070,7 +1200,7 @@ theorem apply_first_upgrade (C : Crypto) (hC : HashWF C) (bs : Array Bytes) (c :
           (d.applyAll (c.verifyAndApply C d (honestUpgrade C bs c.tree.fork sig)).journal) (fun _ => false)
       ∧ (c.verifyAndApply C d (honestUpgrade C bs c.tree.fork sig)).core.tree.fork = c.tree.fork
       ∧ (c.verifyAndApply C d (honestUpgrade C bs c.tree.fork sig)).core.publicKey = c.publicKey := by
-  obtain ⟨cs, h1, h2, h3, h4, h5, h6, h7, h8, h9, h10⟩ := UpgradeComplete.fresh_upgrade_accepted C bs h.small.1 h0 c.tree.fork c.publicKey sig
+  obtain ⟨cs, h1, h2, h3, h4, h5, h6, h7, h8, h9, h10, h11⟩ := UpgradeComplete.fresh_upgrade_accepted C bs h.small.1 h0 c.tree.fork c.publicKey sig
     c.tree.changeset (by simp [Tree.changeset, h.roots]) (by simp [Tree.changeset, h.empty.length]) hsl hver
   have hvv : verifyProof C c.tree d.tree (honestUpgrade C bs c.tree.fork sig) c.publicKey = .ok cs := by
     simp [honestUpgrade, Tree.verifyProof, verifyTree, untrustedOf, noSeekOf, h1]
